@@ -120,22 +120,6 @@ theorem C20_roundtrip_seg (total xfer idx : Nat) (isEnd : Bool) (chunk : Bytes)
       beNat_beBytes 4 xfer (by simpa using hx), beNat_beBytes 4 idx (by simpa using hi)]
     cases isEnd <;> simp
 
-/-- The limit of the segment round trip, as the code has it: a segment with `2^20 - 14` data octets
-    or more (possible only with `mtu - 4 ≥ 2^20`) gets a declared length that wrapped, so the
-    message the agent builds is not `exact` and does not decode to itself. The harness replays
-    such a transfer (MTU 2^20+8) on the implementation. -/
-theorem C20_seg_length_wraps_counterexample (total xfer idx : Nat) (isEnd : Bool) (chunk : Bytes)
-    (h : 2 ^ 20 ≤ chunk.length + 14) :
-    (mkMsg (if isEnd then 4 else 3) [(0, beBytes 4 total)]
-      (beBytes 4 xfer ++ (beBytes 4 idx ++ chunk))).exact = false := by
-  have hlen : (beBytes 4 xfer ++ (beBytes 4 idx ++ chunk)).length = chunk.length + 8 := by
-    simp; omega
-  have hlt : (6 + (chunk.length + 8)) % 2 ^ 20 < 2 ^ 20 := Nat.mod_lt _ (by decide)
-  have hne : ((6 + (chunk.length + 8)) % 2 ^ 20 == 6 + (chunk.length + 8)) = false := by
-    rw [beq_eq_false_iff_ne]; omega
-  simp only [mkMsg, List.map_cons, List.map_nil, normFlags, Msg.exact, hintsExact, hintsLen,
-    beBytes_length, hlen, hne, Bool.and_false, Bool.false_and]
-
 /-- Decoding any frame and re-encoding it reproduces the frame, whenever every declared length
     in it equals the actual length (`Msg.exact`; no truncation, proper H-flag chain). The padding
     is kept as it is. -/
@@ -184,16 +168,19 @@ example : (2 : Nat) ^ 20 ≤ (List.replicate (2 ^ 20) (1 : UInt8)).length := by
 
 /-- The segmented case with `mtu > 18`: the frames are the TransferSeg … TransferEnd messages of
     consecutive non-empty chunks with indices 0, 1, 2, …, exactly the last being the TransferEnd,
-    whose data concatenated by index is the bundle; there are at least two. -/
+    whose data concatenated by index is the bundle; every frame fits the MTU and the 20-bit
+    message length; there are at least two. -/
 theorem C20_cover (xfer : Nat) (data : Bytes) (mtu : Nat) (hseg : mtu ≤ data.length + 4)
     (hmtu : 18 < mtu) :
     ∃ ps : List (Nat × Bool × Bytes),
       sendTransfer xfer data (some mtu) =
         .ok (ps.map fun p => segFrame data.length xfer p.1 p.2.1 p.2.2) ∧
       SegsOK 0 ps ∧ (ps.map (·.2.2)).flatten = data ∧
-      (∀ p ∈ ps, 0 < p.2.2.length ∧ p.2.2.length + 18 ≤ mtu) ∧ 2 ≤ ps.length := by
+      (∀ p ∈ ps, 0 < p.2.2.length ∧ p.2.2.length + 18 ≤ mtu ∧ p.2.2.length + 14 < 2 ^ 20) ∧
+      2 ≤ ps.length := by
   have hr : 0 < (remainSize mtu).toNat := by unfold remainSize headLenSeg; omega
-  have hrv : (remainSize mtu).toNat = mtu - 18 := by unfold remainSize headLenSeg; omega
+  have hrv : (remainSize mtu).toNat ≤ mtu - 18 ∧ (remainSize mtu).toNat ≤ 2 ^ 20 - 15 := by
+    unfold remainSize headLenSeg; omega
   have hnz : ¬ (remainSize mtu ≤ 0) := by unfold remainSize headLenSeg; omega
   obtain ⟨hok, hcat, hall, _⟩ := segLoop_spec data _ hr (data.length + 1) 0 0 (by omega)
   generalize hps : segLoop (data.length + 1) data (remainSize mtu).toNat 0 0 = ps at hok hcat hall
@@ -202,7 +189,7 @@ theorem C20_cover (xfer : Nat) (data : Bytes) (mtu : Nat) (hseg : mtu ≤ data.l
   · simp only [sendTransfer, Nat.not_lt.mpr hseg, if_false, hnz, hps]
   · intro p hp
     obtain ⟨h1, h2⟩ := hall p hp
-    exact ⟨h1, by omega⟩
+    exact ⟨h1, by omega, by omega⟩
   · match ps, hcat', hall with
     | [], hc, _ => simp at hc; subst hc; simp at hseg; omega
     | [p], hc, ha =>
@@ -254,7 +241,7 @@ theorem C20_size (xfer : Nat) (data : Bytes) (mtu : Nat) :
       refine ⟨_, hs, ?_⟩
       intro f hf'
       obtain ⟨p, hp, rfl⟩ := List.mem_map.mp hf'
-      rw [segFrame_length]; have := (hall p hp).2; omega
+      rw [segFrame_length]; have := (hall p hp).2.1; omega
     · have h : data.length + 4 < mtu := Nat.lt_of_not_le hseg
       have hl : data.length < 2 ^ 20 := by
         apply Nat.lt_of_not_le; intro hl; exact hnf (Or.inl ⟨h, hl⟩)
@@ -380,11 +367,48 @@ theorem C20_one_segment (total xfer : Nat) (chunk : Bytes) (chan addr : String) 
     (by intro i hi; simp at hi; subst hi; exact ⟨(true, 0, chunk), by simp [kev], rfl⟩)).1
   simpa using this
 
+/-- Every frame the agent builds for a segmented transfer — for every MTU above 18, however
+    large — decodes to one message with declared length = actual length and the same transfer
+    number, index, end marker and data. -/
+theorem C20_built_frames_decode (xfer : Nat) (data : Bytes) (mtu : Nat)
+    (hx : xfer < 2 ^ 32) (hlen : data.length < 2 ^ 32) (hmtu : 18 < mtu)
+    (hseg : mtu ≤ data.length + 4) :
+    ∃ ps : List (Nat × Bool × Bytes),
+      sendTransfer xfer data (some mtu) =
+        .ok (ps.map fun p => segFrame data.length xfer p.1 p.2.1 p.2.2) ∧
+      ∀ p ∈ ps, ∃ m, decodeSet (segFrame data.length xfer p.1 p.2.1 p.2.2) = some ([m], []) ∧
+        m.exact = true ∧ m.body = .seg p.2.1 xfer p.1 p.2.2 := by
+  obtain ⟨ps, hs, hok, hcat, hall, _⟩ := C20_cover xfer data mtu hseg hmtu
+  refine ⟨ps, hs, ?_⟩
+  have hlen_aux : ∀ l : List (Nat × Bool × Bytes), (∀ p ∈ l, 0 < p.2.2.length) →
+      l.length ≤ ((l.map (·.2.2)).flatten).length := by
+    intro l
+    induction l with
+    | nil => intro _; simp
+    | cons q r ih =>
+      intro hl
+      have h1 := hl q List.mem_cons_self
+      have h2 := ih (fun p hp => hl p (List.mem_cons_of_mem _ hp))
+      simp only [List.map_cons, List.flatten_cons, List.length_append, List.length_cons]; omega
+  have hnle : ps.length ≤ data.length := by
+    have := hlen_aux ps (fun p hp => (hall p hp).1)
+    rw [hcat] at this; exact this
+  intro p hp
+  obtain ⟨j, hj, hjp⟩ := List.getElem_of_mem hp
+  obtain ⟨p', hp', e1, _⟩ := segsOK_spec ps 0 hok j hj
+  have : p' = p := by
+    rw [List.getElem?_eq_getElem hj] at hp'
+    exact (Option.some.inj hp').symm.trans hjp
+  subst this
+  obtain ⟨m, hm, hex, _, hbody⟩ := C20_roundtrip_seg data.length xfer p'.1 p'.2.1 p'.2.2 hx
+    (by omega) (hall p' hp).2.2
+  exact ⟨m, hm, hex, hbody⟩
+
 /-- The frames `_send_transfer` produces for a bundle that needs segmenting (`mtu > 18`), each
     delivered as one frame, in any order, to a receiver that has no entry for that transfer, queue
     exactly one copy of the bundle. -/
 theorem C20_end_to_end (xfer : Nat) (data : Bytes) (mtu : Nat) (chan addr : String) (s0 : Rx)
-    (hx : xfer < 2 ^ 32) (hlen : data.length < 2 ^ 32) (hmtu : 18 < mtu) (hmtu2 : mtu < 2 ^ 20 + 4)
+    (hx : xfer < 2 ^ 32) (hlen : data.length < 2 ^ 32) (hmtu : 18 < mtu)
     (hseg : mtu ≤ data.length + 4) (h0 : getT ⟨chan, xfer⟩ s0.prog = none) :
     ∃ ps : List (Nat × Bool × Bytes),
       sendTransfer xfer data (some mtu) =
@@ -436,7 +460,7 @@ theorem C20_end_to_end (xfer : Nat) (data : Bytes) (mtu : Nat) (chan addr : Stri
       rw [← ih _ (fun p hp => hq p (List.mem_cons_of_mem _ hp))]
       congr 1
       obtain ⟨m, hm, _, _, hbody⟩ := C20_roundtrip_seg data.length xfer q.1 q.2.1 q.2.2 hx
-        (by have := (hpart q hqm).1; omega) (by have := (hall q hqm).2; omega)
+        (by have := (hpart q hqm).1; omega) (hall q hqm).2.2
       have hne : q.2.2.isEmpty = false := by
         have := (hall q hqm).1
         cases hh : q.2.2 with
